@@ -5,7 +5,7 @@ cd "$(dirname "$0")" || exit 1
 export GOFLAGS=-mod=mod GOPROXY=off
 mkdir -p bin logs replay evidence
 rc=0
-for d in checks/*/; do
+for d in checks/c[0-9][0-9]/; do
   p=$(basename "$d")
   race=""
   case "$p" in c13|c20) race="-race" ;; esac
